@@ -482,6 +482,27 @@ def sp_mean_all(eng, node, st):
     return models.np_mean(eng, st, [eng.ev(node.args[0], st)], {}, node)
 
 
+def sp_row_offset(eng, node, st):
+    """row_offset(A, s): first row of part s in the vertically stacked array A (ghost of np.vstack)"""
+    a = eng.ev(node.args[0], st)
+    s_ = to_int(eng.ev(node.args[1], st))
+    return vint(eng.uf('row_offset', I, I, I)(a.t, s_))
+
+
+def sp_chain_offset(eng, node, st):
+    a = eng.ev(node.args[0], st)
+    k = to_int(eng.ev(node.args[1], st))
+    return vint(eng.uf('chain_offset', I, I, I)(a.t, k))
+
+
+def sp_agg(eng, node, st):
+    """mean_of(xs) / median_of(xs) / sum_of(xs): the same uninterpreted functions np.mean / np.median / np.sum are modelled by"""
+    from . import models
+    v = eng.ev(node.args[0], st)
+    fn = {'mean_of': models.np_mean, 'median_of': models.np_median, 'sum_of': models.np_sum}[node.func.id]
+    return fn(eng, st, [v], {}, node)
+
+
 def sp_transpose(eng, node, st):
     from . import models
     return models.transpose(eng, st, eng.ev(node.args[0], st))
@@ -497,7 +518,7 @@ def sp_cnt(eng, node, st):
     return vint(models.cnt(eng, st, a)(a, k, p))
 
 
-SPEC_BUILTINS = dict(cnt=sp_cnt, psum=sp_psum, rsum=sp_rsum, norm=sp_norm, norm2d=sp_norm2d, sqrt=sp_sqrt, matmul=sp_matmul, mean_all=sp_mean_all, count_above=sp_count_above, trace=sp_trace, dict_get=sp_idict, dict_has=sp_idict, runsum=sp_runsum, ln=sp_ln, pi=sp_pi, isfinite=sp_isfinite, task_theta=sp_task_theta, spd_compressed_task=sp_spd_task, logdet=sp_logdet, is_spd=sp_is_spd, copyof=sp_copyof, rows_of=sp_rows_of, cov=sp_cov, colmean=sp_colmean, transpose=sp_transpose, eigh_of=sp_eigh_of, forall=sp_forall, exists=sp_exists, implies=sp_implies, ite=sp_ite, old=sp_old,
+SPEC_BUILTINS = dict(cnt=sp_cnt, psum=sp_psum, rsum=sp_rsum, norm=sp_norm, norm2d=sp_norm2d, sqrt=sp_sqrt, matmul=sp_matmul, chain_offset=sp_chain_offset, mean_of=sp_agg, median_of=sp_agg, sum_of=sp_agg, row_offset=sp_row_offset, mean_all=sp_mean_all, count_above=sp_count_above, trace=sp_trace, dict_get=sp_idict, dict_has=sp_idict, runsum=sp_runsum, ln=sp_ln, pi=sp_pi, isfinite=sp_isfinite, task_theta=sp_task_theta, spd_compressed_task=sp_spd_task, logdet=sp_logdet, is_spd=sp_is_spd, copyof=sp_copyof, rows_of=sp_rows_of, cov=sp_cov, colmean=sp_colmean, transpose=sp_transpose, eigh_of=sp_eigh_of, forall=sp_forall, exists=sp_exists, implies=sp_implies, ite=sp_ite, old=sp_old,
                      fresh=sp_fresh, allocated=sp_allocated, in_set=sp_in_set, same=sp_same, unchanged=sp_unchanged, isnone=sp_isnone, real=sp_real,
                      eqcontent=sp_eqcontent, let=sp_let, alloc_now=sp_alloc)
 
